@@ -13,8 +13,9 @@ namespace WW.C05
 open WW WW.Vault
 
 /-- Every successful operation — deposit, withdrawal, fee collection, fee / toggle change, donation,
-    flash loan with an arbitrary callback tree — preserves the vault invariant and does not lower
-    the assets backing one share. -/
+    flash loan with an arbitrary callback tree, flash loan through the vault router with an arbitrary
+    payload, plain transfers to the router, refused router calls — preserves the vault invariant and
+    does not lower the assets backing one share. -/
 theorem price_step {s s' : St} (op : Op) (hI : Inv s) (h : step s op = some s') :
     Inv s' ∧ (0 < s.sup → backing s * s'.sup ≤ backing s' * s.sup) := by
   cases op with
@@ -65,6 +66,31 @@ theorem price_step {s s' : St} (op : Op) (hI : Inv s) (h : step s op = some s') 
       · have := hI.pendLe
         apply Nat.mul_le_mul_right
         unfold backing; simp only; omega
+  | routerLoan initiator amount payload =>
+    simp only [step] at h
+    split at h
+    · cases h
+    · have L := router_loan_spec hI (by omega) h
+      refine ⟨L.inv, fun _ => ?_⟩
+      have h1 := L.balGe
+      have h2 := L.pendLe
+      have h3 := L.supLe
+      have h4 := hI.pendLe
+      have hb : backing s ≤ backing s' := by unfold backing; omega
+      exact Nat.mul_le_mul hb h3
+  | routerLoanNone who payload =>
+    simp only [step] at h
+    injection h with h; subst h
+    exact ⟨hI, fun _ => le_refl _⟩
+  | routerLoanMulti who a1 a2 payload => exact absurd h (by simp [step])
+  | fundRouter who n =>
+    simp only [step] at h
+    split at h
+    · cases h
+    · obtain ⟨hI', hb, hs, _⟩ := move_inv hI (by omega) (by omega) h
+      exact ⟨hI', fun _ => by rw [hb, hs]⟩
+  | nextLoanBy who amount payload => exact absurd h (by simp [step])
+  | completeLoanBy who initiator amount => exact absurd h (by simp [step])
 
 /-- The invariant holds in every reachable state (failed operations leave the state untouched). -/
 theorem inv_reach {s : St} (hI : Inv s) (ops : List Op) : Inv (reach s ops) := by
@@ -119,6 +145,18 @@ theorem supply_stays_positive {s s' : St} (op : Op) (hI : Inv s) (h : step s op 
         · cases h
         · obtain ⟨rfl, _⟩ := payIn_spec hI.abLen (by omega) h
           exact Or.inl rfl
+      | routerLoan initiator amount payload =>
+        simp only [step] at h; split at h
+        · cases h
+        · exact Or.inl (router_loan_spec hI (by omega) h).lpVault
+      | routerLoanNone who payload => simp only [step] at h; injection h with h; subst h; exact Or.inl rfl
+      | routerLoanMulti who a1 a2 payload => exact absurd h (by simp [step])
+      | fundRouter who n =>
+        simp only [step] at h; split at h
+        · cases h
+        · exact Or.inl (move_inv hI (by omega) (by omega) h).2.2.2.1
+      | nextLoanBy who amount payload => exact absurd h (by simp [step])
+      | completeLoanBy who initiator amount => exact absurd h (by simp [step])
     have := min_liq_pos
     rcases hkeep with hk | hk <;> omega
   · have := hI'.lpSum
@@ -249,7 +287,7 @@ theorem deposit_then_withdraw_le {s s1 s2 : St} {who amount sent lp : Nat} (hI :
 /-- non-vacuity: a concrete history (deposit, loan with fees, collect, partial withdrawal) from the
     initial state satisfies the invariant, has shares outstanding, and its share price moved up. -/
 example :
-    let s0 := Vault.init 0 ⟨10000000000000000, 3000000000000000, 1000000000000000⟩ [5000000, 5000000, 0, 100000, 0]
+    let s0 := Vault.init 0 ⟨10000000000000000, 3000000000000000, 1000000000000000⟩ [5000000, 5000000, 0, 100000, 0, 0]
     let s := reach s0 [.deposit 0 1000000 1000000, .loan 500000 [.pay 507000], .collect, .withdraw 0 400000]
     (s.bal, s.pend, s.sup, s.lpVault, s.burned, shareOf s 1000000) = (600900, 0, 600000, 1000, 500, 1001499) := by
   decide
